@@ -46,6 +46,20 @@ def reparse_cycle(data, st, case, label):
                      'first difference at byte %d: %r vs %r'
                      % (i, data[max(0, i - 30):i + 40],
                         again[max(0, i - 30):i + 40]), case)
+        return
+
+    # the same object serialised once more: re-serialising is not allowed
+    # to use the loaded tree up
+    try:
+        third = tree.to_bytes()
+    except Exception as e:
+        st.violation('%s-second-reserialisation-raised:%s'
+                     % (label, type(e).__name__), repr(e), case)
+        return
+
+    if third != data:
+        st.violation('%s-second-reserialisation-differs' % label,
+                     '%r vs %r' % (data[:80], third[:80]), case)
 
 
 def run_program(program, st):
